@@ -314,6 +314,12 @@ func (n *CandidateNode) CreateReplacement(kind Kind, tag string, value string) *
 func (n *CandidateNode) CopyAsReplacement(replacement *CandidateNode) *CandidateNode {
 	newCopy := replacement.Copy()
 	newCopy.Parent = n.Parent
+	if n.Parent == nil {
+		// what replaces a document stays at that document's position
+		newCopy.document = n.document
+		newCopy.filename = n.filename
+		newCopy.fileIndex = n.fileIndex
+	}
 
 	if n.IsMapKey {
 		newCopy.Key = n
